@@ -9,6 +9,9 @@ import (
 // Properties is the registry of checks; see DESIGN.md section 4.
 var Properties = map[string]*Property{}
 
+// RootHooks are the overlay hooks every check that loads the root package needs.
+var RootHooks []HookSpec
+
 func reg(p *Property) { Properties[p.ID] = p }
 
 func init() {
@@ -227,8 +230,9 @@ func init() {
 	}
 	clipHook := []HookSpec{{File: polyclipGeom, Funcs: []string{"Construct"}, Exported: true,
 		Decls: "// set by the verification harness: replaces the clipper by a recording stub\nvar VHook_Construct func(p Polygon, operation Op, clipping Polygon) Polygon"}}
+	RootHooks = clipHook
 	reg(&Property{
-		ID: "C01", Pkgs: []string{"."}, Level: "model_checking", Hooks: clipHook,
+		ID: "C01", Pkgs: []string{"."}, Level: "model_checking",
 		Opts: []HarnessOpt{{Prefix: "VH_C01_", IfConv: true, MaxUnwind: 40, Merge: geomMerge}},
 		Rule: "one evaluation = one explored path (receiver/argument types, operation, ring and vertex counts, shortcut taken) with all coordinates free non-NaN doubles; non-trivial = path ends with all assertions discharged",
 		Bounds: map[string]string{
@@ -242,7 +246,7 @@ func init() {
 		Outside: []string{"correctness of the sweep for operands whose bounding boxes overlap (event queue, intersections, connector): pointer-rich sorting code with FP divisions in path conditions, in a dependency"},
 	})
 	reg(&Property{
-		ID: "C14", Pkgs: []string{"."}, Level: "model_checking", Hooks: clipHook,
+		ID: "C14", Pkgs: []string{"."}, Level: "model_checking",
 		Opts: []HarnessOpt{{Prefix: "VH_C14_", IfConv: true, MaxUnwind: 40, Merge: geomMerge}},
 		Rule: "one evaluation = one explored path (line/multi-line, polygonal type, counts) with all coordinates free non-NaN doubles; non-trivial = path ends with all assertions discharged",
 		Bounds: map[string]string{
